@@ -27,7 +27,8 @@ RULE = ("a ThreadedWriter around a recording destination (with a failure mask ov
         "message whose offer returned before stopService was called is passed to the wrapped destination exactly once and before "
         "stopService's result completes; nothing is passed twice; per-producer order and real-time order of non-overlapping offers "
         "are kept; all writes of a cycle happen on one thread that is none of the callers; a destination exception loses only that "
-        "message. non-trivial = schedule whose preemption fired in logwriter.py or with stop concurrent to offers; distinct by "
+        "message; in part of the runs the wrapped destination itself offers a message from inside its call (never handled re-entrantly, "
+        "queued behind everything offered before); with a stalled destination (logical clock) further offers never wait. non-trivial = schedule whose preemption fired in logwriter.py or with stop concurrent to offers; distinct by "
         "interleaving hash")
 ASSUMPTIONS = ["twisted is not installed: Service and deferToThreadPool are the stand-ins of vf/twisted_stub.py, which reproduce only the two "
                "behaviours ThreadedWriter relies on", "messages offered concurrently with stopService are only required to be written at most once"]
@@ -43,12 +44,24 @@ def plan(tier, seed):
     return specs
 
 
-def run_once(plan_, nprod, nmsg, cycles, concurrent_stop, failmask, second_writer=False, slow=False):
+def run_once(plan_, nprod, nmsg, cycles, concurrent_stop, failmask, second_writer=False, slow=False, nested=False):
     tape = Tape()
     calls = [0]
     release = [not slow]
+    depth = [0]
+    nested_problems = []
 
     def dest(msg):
+        depth[0] += 1
+        try:
+            if depth[0] > 1:
+                nested_problems.append("the wrapped destination was called for %r while its call for another message was still in progress" % (
+                    (msg["p"], msg["seq"], msg["cyc"]),))
+            return dest_(msg)
+        finally:
+            depth[0] -= 1
+
+    def dest_(msg):
         if not release[0]:
             # an arbitrarily slow destination: stalls until the 'clock' thread, whose sleep outlasts every timeout in the
             # code under test, lets it go on
@@ -58,6 +71,12 @@ def run_once(plan_, nprod, nmsg, cycles, concurrent_stop, failmask, second_write
         if msg.get("w"):
             tape.add("foreign_write", p=msg["p"], ms=msg["seq"])  # a message offered to the OTHER writer arrived here
         tape.add("write", p=msg["p"], ms=msg["seq"], cyc=msg["cyc"], ident=_thread.get_ident(), call=i)
+        if nested and msg["p"] == 0 and msg["seq"] == 0:
+            # a destination that logs while it handles a message (its own diagnostics go through eliot and come back to the
+            # writer): that message is offered from the writer's own thread and queues up behind everything offered before
+            tape.add("offer_call", p="X", ms=0, cyc=msg["cyc"])
+            writer({"p": "X", "seq": 0, "cyc": msg["cyc"]})
+            tape.add("offer_ret", p="X", ms=0, cyc=msg["cyc"])
         if i in failmask:
             raise excs.DestFault("wrapped destination fails on call %d" % i)
 
@@ -133,6 +152,7 @@ def run_once(plan_, nprod, nmsg, cycles, concurrent_stop, failmask, second_write
     st, errs = sched.run_schedule(plan_, workers, timeout=90.0)
     for n, e in errs.items():
         problems.append("thread %s raised %r" % (n, e))
+    problems.extend(nested_problems[:2])
     if not st["aborted"]:
         if tape.events("foreign_write"):
             problems.append("a message offered to one ThreadedWriter was passed to another writer's destination")
@@ -245,6 +265,12 @@ def run_case(spec):
                 continue
             else:
                 judge(tape, idents, nprod, nmsg, 1, set(), problems)
+                waits = [w for t, w in st["blocked"] if t == "P0" and w != "wait"]
+                if waits:
+                    problems.append("offering a message made the caller wait (%s) while the wrapped destination was busy with an earlier one: "
+                                    "logging blocks on slow output" % (waits[0],))
+                res["counters"]["offers_while_destination_stalled"] = res["counters"].get("offers_while_destination_stalled", 0) + sum(
+                    1 for e in tape.entries if e["k"] == "offer_ret")
             res["nontrivial"].append(h(["slow", order, nmsg]))
             if problems:
                 res["violations"].append({"msg": problems[0], "mech": None, "detail": {"part": "slow destination", "order": order, "problems": problems[:4]}})
@@ -257,11 +283,14 @@ def run_case(spec):
     total = nprod * nmsg * cycles
     failmask = set(i for i in range(total) if rng.random() < rng.choice([0.0, 0.3, 1.0]))
     second_writer = rng.random() < 0.25
+    nested = rng.random() < 0.3
     names = ["S"] + ["P%d" % p for p in range(nprod)] + ["dyn%d" % (k + 1) for k in range((4 if second_writer else 2) * cycles)]
     c = res["counters"]
 
     def execute(plan_, label):
-        st, tape, idents, problems = run_once(plan_, nprod, nmsg, cycles, concurrent_stop, failmask, second_writer)
+        st, tape, idents, problems = run_once(plan_, nprod, nmsg, cycles, concurrent_stop, failmask, second_writer, nested=nested)
+        if nested:
+            c["schedules_with_a_logging_destination"] = c.get("schedules_with_a_logging_destination", 0) + 1
         res["evals"] += 1
         c["schedules_run"] = c.get("schedules_run", 0) + 1
         if st["deadlock"]:
